@@ -333,6 +333,26 @@ def _layer_filters_source(repo: Repo, T, view: FuncInfo, it: ast.expr, layer_var
     return "unknown", text
 
 
+def _whole_layer_handed_over(repo: Repo, T, view: FuncInfo, p: Production) -> Production:
+    """`rule._add_modules(architecture[layer])` inside a loop over the named layers: the layer's filter list is handed over
+    wholesale - the same event as "every filter m of architecture[layer]" (filter objects of their own kind)."""
+    if p.elt is not None or p.merged is None:
+        return p
+    pv = p.view or view
+    loops = list(p.loops)
+    if not loops:
+        return p
+    layer_vars: set[str] = set()
+    for t, _it in loops:
+        layer_vars |= target_names(t)
+    kind, _text = _layer_filters_source(repo, T, pv, p.merged, layer_vars)
+    if kind not in ("all", "part"):
+        return p
+    var = "layer_module_filter__"
+    q = Production(ast.Name(id=var, ctx=ast.Load()), loops + [(ast.Name(id=var, ctx=ast.Store()), p.merged)], list(p.conds), p.node, view=p.view, binding=p.binding, caller=p.caller)
+    return q
+
+
 def check_are_named(repo: Repo, res: Result) -> FuncInfo | None:
     """are_named: every named layer contributes *all* of its module filters as (identifier, is-regex) to the wrapped rule.
     Returns the Rule method that receives them."""
@@ -388,16 +408,19 @@ def check_are_named(repo: Repo, res: Result) -> FuncInfo | None:
             return None
         return dview(repo, cs[0], lr, family(repo, lr), tag="lr")
 
-    prods = productions(view, arg, follow=follow)
+    prods = [_whole_layer_handed_over(repo, T, view, p) for p in productions(view, arg, follow=follow)]
     if not prods or any(p.elt is None for p in prods):
         bad = next((p for p in prods if p.elt is None), None)
         res.undecide("C05.R1", construct, f"cannot follow how the module specifications `{norm(arg, 60)}` are built" + (f" (`{norm(bad.merged, 60)}`)" if bad is not None and bad.merged is not None else ""), where_of(view, call))
+        receiver.c05_mode = "UNDECIDED"  # type: ignore[attr-defined]  # what the receiver gets (pairs / filter objects) is not known
         return receiver
     ok_all = True
+    any_undecided = False
     for p in prods:
         pv = p.view or view
         verdict, detail = _judge_lowering(repo, T, view, p, layers_param)
         if verdict == "undecided":
+            any_undecided = True
             res.undecide("C05.R1", key_of(repo, pv, p.node, " [layer lowering]"), detail, where_of(pv, p.node))
             ok_all = False
         elif verdict == "violated":
@@ -408,6 +431,8 @@ def check_are_named(repo: Repo, res: Result) -> FuncInfo | None:
         res.add("C05.R1", construct, True, "every module filter of every named layer reaches the wrapped rule as " + ("a module filter of its own kind" if as_filters else "(identifier, identifier_is_regex)"), where(an, an.node), kind="flow")
         if as_filters:
             receiver.c05_mode = "FILTERS"  # type: ignore[attr-defined]
+    elif any_undecided:
+        receiver.c05_mode = "UNDECIDED"  # type: ignore[attr-defined]
     return receiver
 
 
@@ -897,6 +922,10 @@ def check_filter_selection(repo: Repo, res: Result, receiver: FuncInfo | None) -
         return
     nodes = list(all_nodes(view))
     mode = getattr(receiver, "c05_mode", "SPECS")
+    if mode == "UNDECIDED":
+        # the lowering on the LayerRule side was left undecided (already reported): whether pairs or filter objects arrive here
+        # is not known, so a missing filter construction is no evidence of anything
+        return
     comp = Components(view, nodes, {params[0]: mode})
     sites: list = []
     from core.guards import TRUE
